@@ -104,6 +104,29 @@ def renameTable {D : Type} (F : Fold) (tbl : DefTable D) (old : String) (scope :
     else if s = scope ∧ k = F.low old then none
     else tbl s k
 
+/-- the table after ONE update that changes spelling and scope together: the definition keyed
+    `(scope, low old)` moves to `(newScope, low new)` (`update_defined_name` sets `df.name` and
+    `df.sheet_id` in the same call) -/
+def updateTable {D : Type} (F : Fold) (tbl : DefTable D) (old : String) (scope : Option Nat) (new : String)
+    (newScope : Option Nat) : DefTable D :=
+  fun s k =>
+    if s = newScope ∧ k = F.low new then tbl scope (F.low old)
+    else if s = scope ∧ k = F.low old then none
+    else tbl s k
+
+/-- one identifier through `rename_defined_name_in_node(name, scope, new)` (the OLD scope selects the
+    users) followed by the re-parse, on a sheet from which the moved definition is what the new
+    spelling denotes: the user is re-spelled and bound to the new scope, every other identifier is kept -/
+def retargetIdent (lower : String → String) (name : String) (scope : Option Nat) (new : String)
+    (newScope : Option Nat) (v : NameRes) (n : String) : NameRes × String :=
+  match v with
+  | some s => if lower name = lower n ∧ s = scope then (some newScope, new) else (v, n)
+  | none => (v, n)
+
+def retargetNameInNode (lower : String → String) (name : String) (scope : Option Nat) (new : String)
+    (newScope : Option Nat) : Node → Node :=
+  Tree.map (fun _ r => r) (retargetIdent lower name scope new newScope)
+
 /-- the name list (with scope indices) after the rename -/
 def renameDefs (F : Fold) (dns : List (String × Option Nat)) (old : String) (scope : Option Nat) (new : String) :
     List (String × Option Nat) :=
